@@ -279,6 +279,9 @@ type sideObs struct {
 	Pos  int    `json:"pos"`
 	Res  string `json:"res"`
 	Code string `json:"code"`
+	// Small: the clone was consumed with a size limit below the object's size (the consumer is turned away
+	// and has to leave the multiplexer like any other consumer; seeded change C15-b)
+	Small bool `json:"small"`
 }
 
 type closeCounter struct {
@@ -368,10 +371,15 @@ func runAlgebra(c *algCase) map[string]any {
 				if _, err := sb.GetSizeBytes(); err != nil && c.Base != "error" && false {
 					_ = err
 				}
-				data, err := sb.ToByteSlice(1 << 20)
+				small := (pos+len(c.Ops)+len(c.Base))%3 == 0
+				limit := 1 << 20
+				if small {
+					limit = 3
+				}
+				data, err := sb.ToByteSlice(limit)
 				res, code := classify(data, err)
 				sideMu.Lock()
-				sides = append(sides, sideObs{Pos: pos, Res: res, Code: code})
+				sides = append(sides, sideObs{Pos: pos, Res: res, Code: code, Small: small})
 				sideMu.Unlock()
 			}()
 		}
